@@ -9,3 +9,5 @@ for d in seeded/*/; do
   git -C /repo checkout -- .
   echo "$id ($prop) exit=$e $(echo "$out" | grep -E '^VIOLATION|^UNDECIDED' | sed 's/replay=[^ ]* //' | head -2 | tr '\n' ' ' | cut -c1-260)"
 done
+# the runs above rewrote evidence/*.json for mutated trees: restore the committed evidence of the unchanged tree
+git -C /verif checkout -- evidence
